@@ -131,12 +131,20 @@ def deleteResult (s : Img) (sel : Sel) (compact : Bool) (t : Int) : Img :=
   deleteFinish s (hdrAfterDelete s.h (s.rds.filter (hit ph sel)))
     (s.rds.map (fun d => if hit ph sel d then zeroDesc else d)) compact t
 
+/-- the calls of an accepted `DeleteObjects` before the final flush: zero each deleted object (if
+    requested), then resize the store to the new end of the data section (if compacting) -/
+def deletePre (s : Img) (sel : Sel) (zero compact : Bool) (t : Int) : List IOCall :=
+  let zc := (s.rds.filter (hit ph sel)).flatMap (zeroCalls zero)
+  let s' := deleteResult ph s sel compact t
+  zc ++ (if compact then resizeCalls (lenAfter s.st zc) (s'.h.dataOff + s'.h.dataSize) else [])
+
 theorem deleteObjectsPlan_cases (s : Img) (sel : Sel) (zero compact : Bool) (topt : TOpt)
     (now : Int) :
     (∃ calls e, deleteObjectsPlan ph s sel zero compact topt now = (calls, s, .err e)) ∨
     (sel.noErr = true ∧ s.rds.any (hit ph sel) = true ∧
-      ∃ pre, deleteObjectsPlan ph s sel zero compact topt now =
-        (pre ++ flushCalls (deleteResult ph s sel compact (resolveTime s topt now)),
+      deleteObjectsPlan ph s sel zero compact topt now =
+        (deletePre ph s sel zero compact (resolveTime s topt now) ++
+           flushCalls (deleteResult ph s sel compact (resolveTime s topt now)),
          deleteResult ph s sel compact (resolveTime s topt now), .ok)) := by
   unfold deleteObjectsPlan
   rcases Sel.noErr_or_errOf sel with hs | ⟨e, he⟩
@@ -144,7 +152,7 @@ theorem deleteObjectsPlan_cases (s : Img) (sel : Sel) (zero compact : Bool) (top
     simp only [List.nil_append, Bool.false_or]
     cases hany : s.rds.any (hit ph sel) with
     | false => left; exact ⟨_, .objectNotFound, rfl⟩
-    | true => right; exact ⟨hs, rfl, _, rfl⟩
+    | true => right; exact ⟨hs, rfl, rfl⟩
   · rw [deleteLoop_err ph sel e he]
     cases hany : s.rds.any (·.used) with
     | true => left; exact ⟨[], e, by simp⟩
@@ -172,10 +180,10 @@ theorem plan_shape (s : Img) (op : Op) (now : Int) :
       · simp [commitObject]
   | del sel z c t =>
     simp only [plan]
-    rcases deleteObjectsPlan_cases ph s sel z c t now with ⟨calls, e, h⟩ | ⟨_, _, pre, h⟩
+    rcases deleteObjectsPlan_cases ph s sel z c t now with ⟨calls, e, h⟩ | ⟨_, _, h⟩
     · simp [h]
     · rw [h]
-      refine ⟨by simp, fun _ => Or.inr ⟨pre, rfl, ?_, ?_⟩⟩
+      refine ⟨by simp, fun _ => Or.inr ⟨_, rfl, ?_, ?_⟩⟩
       · cases c <;> simp [deleteResult, deleteFinish]
       · simp [deleteResult, deleteFinish]
   | setPrim id t =>
